@@ -183,6 +183,11 @@ func getFloatToStringFunction() schema.CallableFunction {
 	return funcSchema
 }
 
+// maxFormatPrecision is the largest precision floatToFormattedString accepts. No float64 has more than 1074 digits
+// after the decimal point, so further digits can only be zeros, while strconv.FormatFloat allocates in proportion
+// to the precision and panics when it is close to the largest integer.
+const maxFormatPrecision = 1100
+
 func getFloatToFormattedStringFunction() schema.CallableFunction {
 	funcSchema, err := schema.NewCallableFunction(
 		"floatToFormattedString",
@@ -203,7 +208,7 @@ func getFloatToFormattedStringFunction() schema.CallableFunction {
 			nil,
 			nil,
 			regexp.MustCompile(`^(?:-?(?:0[xX])?[0-9a-fA-F]+(?:\.[0-9a-fA-F]*)?(?:[pPeE][-+]\d{1,4})?|NaN|[+-]Inf)$`)),
-		false,
+		true,
 		schema.NewDisplayValue(
 			schema.PointerTo("floatToFormattedString"),
 			schema.PointerTo(
@@ -217,8 +222,11 @@ func getFloatToFormattedStringFunction() schema.CallableFunction {
 			),
 			nil,
 		),
-		func(f float64, fmt string, precision int64) string {
-			return strconv.FormatFloat(f, fmt[0], int(precision), 64)
+		func(f float64, format string, precision int64) (string, error) {
+			if precision > maxFormatPrecision {
+				return "", fmt.Errorf("precision %d is above the maximum of %d", precision, maxFormatPrecision)
+			}
+			return strconv.FormatFloat(f, format[0], int(precision), 64), nil
 		},
 	)
 	if err != nil {
